@@ -112,11 +112,18 @@ def sdl(schema, order=None, fold_extensions=True, declare_builtins=False):
                 ext_fields = [f for f in t["fields"] if f.get("ext")]
                 if not base_fields:      # an object needs at least one field
                     base_fields, ext_fields = t["fields"], []
-            if t.get("interfaces"):
-                impl = " implements " + " & ".join(t["interfaces"])
+            ifaces = list(t.get("interfaces") or [])
+            ext_ifaces = []
+            if ext_fields:
+                # interfaces flagged ext are declared by the extension (`extend type X implements I {..}`)
+                ext_ifaces = [i for i in ifaces if i in (t.get("ext_interfaces") or [])]
+                ifaces = [i for i in ifaces if i not in ext_ifaces]
+            if ifaces:
+                impl = " implements " + " & ".join(ifaces)
             out.append("type %s%s {\n%s\n}" % (t["name"], impl, _fields_sdl(base_fields)))
             if ext_fields:
-                exts.append("extend type %s {\n%s\n}" % (t["name"], _fields_sdl(ext_fields)))
+                eimpl = (" implements " + " & ".join(ext_ifaces)) if ext_ifaces else ""
+                exts.append("extend type %s%s {\n%s\n}" % (t["name"], eimpl, _fields_sdl(ext_fields)))
         elif k == "INPUT_OBJECT":
             one = " @oneOf" if t.get("oneOf") else ""
             lines = []
